@@ -25,8 +25,8 @@ add("C05", "property-based testing (rapid): generated programs under all trivia 
 add("C06", "property-based testing (rapid): valid generated programs + one guaranteed-invalid edit (bracket insert/delete, truncation inside brackets, control byte, deleted ';' between two operands, __halt_compiler(); nested in a block) must report; error-shape invariants and callback/no-callback differential on arbitrary inputs; thorough adds native go test -fuzz with the same oracle inside the target",
     "Exploration: guaranteed-invalid edits with an argument why no PHP grammar accepts them; error message/position/line/order invariants; silent parse => complete tiling tree; tree equality with and without callback incl. PHP 5 semantic-error programs.",
     "Grammar leniency is deliberately not probed (only edits with a proof of invalidity). PHP 5 semantic errors arrive out of source order (open finding).")
-add("C07", "property-based testing (rapid): metamorphic - insert a malformed statement at a drawn boundary of a drawn statement list of a generated program and compare with the error-free parse (prefix preserved, parsing resumes); runs of n malformed statements with numbered sentinels (n around powers of two and ten); print-clause invariants on every recovered tree; thorough adds native go test -fuzz for the print clause",
-    "Exploration: 18 malformed statements x all statement-list kinds x boundaries; prefix statements compared with tokens and positions; sentinel statement must be found after the error; recovered trees of byte-level inputs checked for invented/duplicated/reordered tokens.",
+add("C07", "property-based testing (rapid): metamorphic - insert a malformed statement at a drawn boundary of a drawn statement list of a generated program and compare with the error-free parse (prefix preserved, parsing resumes); runs of n malformed statements with numbered sentinels and witness statements between them (n around powers of two and ten); print-clause invariants on every recovered tree; thorough adds native go test -fuzz for the print clause",
+    "Exploration: 18 malformed statements x all statement-list kinds x boundaries; prefix statements compared with tokens and positions; sentinel statement must be found after the error; recovered trees of byte-level inputs (incl. programs only PHP's compiler rejects) checked for invented/duplicated/reordered tokens.",
     "Class bodies are not covered (no error production there, outside the property's lists).")
 add("C08", "property-based testing (rapid): metamorphic - the same generated program rendered under a reference and 2-5 drawn trivia policies must parse to the same structure; plus hand-written pairs for lexer-state-specific gaps, an exhaustive keyword x continuation matrix for the empty gap behind a keyword, and lone-CR renderings under a tolerance that admits only the known warning",
     "Exploration: all inter-token gaps where PHP permits trivia receive none / whitespace (LF, CRLF, tabs, VT, FF) / block, doc, line and hash comments; structure compared with the reference parse and the generator's model.",
@@ -46,7 +46,7 @@ add("C12", "exhaustive enumeration of node kind x child-slot subsets with marker
 add("C13", "property-based stateful testing (rapid): histories of print/dump/traverse/resolve on one tree vs fresh-parse references, full-tree and slice-capacity fingerprints after every step, source-buffer equality; pointer-disjointness of two parses",
     "Exploration: histories of up to 16 operations (the four observers on the root and on sub-trees) over generated, namespace-heavy, long-lexeme and byte-level inputs.",
     "Observers that mutate state outside the tree and the source buffer are not visible to the fingerprints.")
-add("C14", "property-based model-based testing (rapid): programs rendered from a namespace/import/reference model (name pools incl. compound families: a base word glued to kind words and keywords); reference name resolver over the model predicts the exact ResolvedNames map (keys by source offset); the same prediction, as a multiset, for the names printed by `php-parser -r`",
+add("C14", "property-based model-based testing (rapid): programs rendered from a namespace/import/reference model (name pools incl. compound families: a base word glued to kind words and keywords; scalar type words as function / constant names and aliases); reference name resolver over the model predicts the exact ResolvedNames map (keys by source offset); the same prediction, as a multiset, for the names printed by `php-parser -r`",
     "Exploration: all reference positions x name forms x alias kinds x letter-case variants (ASCII-only folding; non-ASCII near-miss names) x namespace styles x prefix lengths 1-7 are populated (distribution in the evidence); missing, wrong and extra entries fail.",
     "The reference resolver is my transcription of PHP's name-resolution rules as stated in the property.")
 add("C15", "exhaustive enumeration of node kind x slot subsets with unique marker tokens/free-floating tokens/leaves + property-based subtree replacement, token-value edits and token removal on parsed trees (files with inline HTML, close tags and shebang lines included); oracle: reflective source order + independent canonical-lexeme table",
